@@ -93,6 +93,11 @@ CHECKS['C11'] = dict(engine='SYMREL', category='translation_validation', design=
    text='For each of 38 single-integration statements (joins of every kind, nested/IN/scalar subqueries, CTE, UNION/INTERSECT/EXCEPT, GROUP BY/HAVING, DISTINCT, ORDER BY..LIMIT/OFFSET, CASE, aliases and tables spelled like the integration, mixed-case and three-part qualifiers): the plan is exactly one fetch step for that integration, and for EVERY database content within the bound the pushed query returns the same bag of rows under the same output column names as the original.',
    note='Trusted: z3; SYMREL (validated against sqlite3 per member per run); sqlite3 for replay. R=2 (quick) / 3 (thorough) rows per table, values 0..3 with NULLs. Window functions and string/date data are outside the fragment.')
 
+CHECKS['C08'] = dict(engine='SYMREL', category='translation_validation', design='4/C08',
+   technique='z3 relational encoding (SYMREL) + plan interpreter: the steps of the real plan are given the meaning of their docstrings and evaluated over a symbolic multi-integration database; bag equality (or valid-answer for LIMIT without ORDER BY) with the original query is decided for all small database contents; sat models replayed on sqlite3',
+   text='For each family member (2-way joins: 5 join kinds x 4 ON shapes x 11 WHERE shapes x 8 select/tail shapes; 3-way joins, comma/cross joins, IN / NOT IN / scalar subqueries on another integration, UNION/INTERSECT/EXCEPT across integrations, CTEs, FROM-subqueries) the real planner runs once and z3 shows that, for EVERY database content within the bound (NULLs, duplicates, empty tables), executing the emitted steps yields the same bag of rows as the original query on one engine holding all tables; a fetch step may only read tables of its own integration.',
+   note='Trusted: z3; SYMREL and the plan interpreter (original side validated against sqlite3 per member per run; counterexamples replayed on sqlite3 including the fetch steps); step semantics from planner/steps.py docstrings. R=2 (quick, ~200 members) / 3 (thorough, full product) rows per table, values 0..3. Row order is not compared. Known finding: LIMIT pushed into the first table\'s fetch.')
+
 NA_PENDING = {}
 
 
